@@ -26,7 +26,16 @@ def get_type_layout(
             path_to_key[bin_path] = key
         else:
             assert entrypoints is False, f'duplicate key {key}'
-            path_to_key[bin_path] = f'{arg.prim}_{i}'
+            path_to_key[bin_path] = None  # type: ignore  # inferred below, once all explicit names are known
+
+    used = set(reserved)
+    for i, (bin_path, arg) in enumerate(flat_args):
+        if path_to_key[bin_path] is None:
+            key = f'{arg.prim}_{i}'
+            while key in used:  # an explicit field may be called e.g. `nat_1` as well
+                key += '_'
+            used.add(key)
+            path_to_key[bin_path] = key
 
     idx_to_path = dict(enumerate(path_to_key))
     if len(reserved) == 0 and infer_names is False and entrypoints is False:
